@@ -144,6 +144,7 @@ class Lower:
         raise Abort('no C type for C++ type %r' % qt)
 
     def find_record(self, t):
+        t = getattr(self.u, 'RECORD_ALIASES', {}).get(t, t)
         if t in self.records:
             return t
         c = [q for q in self.records if q.endswith('::' + t)]
@@ -522,10 +523,12 @@ class Lower:
             return self.stubs[nm]
         raise Abort('call to %s [%s]: neither lowered nor stubbed (in %s)' % (nm, self.qt(ref or {}), self.cur_fn))
 
-    def args(self, target, arg_nodes, ptypes=None):
+    def args(self, target, arg_nodes, ptypes=None, drop_defaults=False):
         ps = params_of(target) if target else []
         out = []
         for i, a in enumerate(arg_nodes):
+            if a.get('kind') == 'CXXDefaultArgExpr' and drop_defaults:
+                continue
             if a.get('kind') == 'CXXDefaultArgExpr':
                 if i >= len(ps):
                     raise Abort('default argument of a non-dumped callee in %s' % self.cur_fn)
@@ -544,9 +547,24 @@ class Lower:
             elif ptypes and i < len(ptypes):
                 pt = ptypes[i]
             if pt and self.is_ref(pt):
-                x = self.addr(x)
+                x = self.ref_arg(a, x) if a.get('kind') != 'CXXDefaultArgExpr' else self.addr(x)
             out.append(x)
         return out
+
+    def ref_arg(self, a, x):
+        """address of an argument bound to a reference parameter; a temporary (call result, literal) is materialised first"""
+        if re.match(r'^\(?\w+\(.*\)\)?$', x) and not x.startswith('(*') and not x.startswith('((') or x.startswith('((struct') or re.match(r'^\(*-?\d', x):
+            ct = self.ctype(a['type'])
+            t = 'vs_t%d' % self.tmp
+            self.tmp += 1
+            if self.cur_spec.get('hoist_all') and self.loop_depth:
+                self.hoisted.append('%s %s;' % (ct, t))
+                self.hoisted_names.append(t)
+                self.pre.append('%s = %s;' % (t, x))
+            else:
+                self.pre.append('%s %s = %s;' % (ct, t, x))
+            return '&' + t
+        return self.addr(x)
 
     def addr(self, x):
         m = re.match(r'^\(\*(.*)\)$', x)
@@ -746,6 +764,8 @@ class Lower:
             isconst = bool(re.search(r'\bconst\b', qt.split('*')[0]))
             if kind == 'this' and re.search(r'\)\s*const\b', sig or ''):
                 isconst = True
+            if any(label.startswith(p) for p in getattr(self.u, 'ASSUME_PURE', [])):
+                isconst = True       # assumed contract: a pure lookup, nothing it receives is modified
             pn = 'p%d' % i
             if ct.startswith('struct') and not ct.endswith('*'):
                 if a.get('valueCategory') in ('lvalue', 'xvalue'):
@@ -780,14 +800,14 @@ class Lower:
         if name is None:
             name = 'vs_dflt_%s_%d' % (self.mangle(label)[-48:], len(self.dflt_names))
             self.dflt_names[key] = name
-            nothrow = 'noexcept' in sig and 'noexcept(false)' not in sig
+            nothrow = ('noexcept' in sig and 'noexcept(false)' not in sig) or any(label.startswith(p) for p in getattr(self.u, 'ASSUME_NOTHROW', []))
             text = 'static %s %s(%s)\n{\n' % (rt, name, ', '.join(params) or 'void')
             for b in body:
                 text += '    ' + b + '\n'
             if not nothrow:
                 text += '    { _Bool th; if (th) { vs_exc = VS_EXC_OTHER_STD; } }\n'
             if rt.endswith('*') and isref:
-                text += '    static %s obj; { %s t; obj = t; }\n    return &obj;\n' % (rt[:-1].strip(), rt[:-1].strip())
+                text += '    %s *obj = malloc(sizeof(*obj)); __CPROVER_assume(obj != 0);\n    return obj;\n' % rt[:-1].strip()
             elif rt != 'void':
                 text += '    %s r;\n    return r;\n' % rt
             text += '}\n'
@@ -847,9 +867,10 @@ class Lower:
                     return x
                 raise Abort('member call %s [%s] (or key %r): neither lowered nor stubbed (in %s, line %s)' % (key, self.qt(me), rkey, self.cur_fn, Ast.where(n)[1]))
         ptypes = self.param_types_from_sig(self.qt(tgt) if tgt else self.qt(me))
+        isstub = isinstance(name, dict) or name not in self.fn_info
         if isinstance(name, dict):
-            return self.stub_expand(name, objp, self.args(tgt, ins[1:], ptypes), n)
-        argl = [objp] + self.args(tgt, ins[1:], ptypes)
+            return self.stub_expand(name, objp, self.args(tgt, ins[1:], ptypes, drop_defaults=True), n)
+        argl = [objp] + self.args(tgt, ins[1:], ptypes, drop_defaults=isstub)
         sig = self.qt(tgt) if tgt else self.qt(me)
         isref = self.ret_of_sig(sig).endswith('&') or n.get('valueCategory') == 'lvalue'
         x = self.emit_call(name, argl, n, ref=isref)
@@ -1245,7 +1266,7 @@ class Lower:
                     raise Abort('catch (%s): no kind test' % t)
                 bind = ''
                 if var.get('name'):
-                    bind = pad + '    int %s = vs_exc; (void)%s;\n' % (var['name'], var['name'])
+                    bind = pad + '    int vs_caught_%d = vs_exc; int *%s = &vs_caught_%d; (void)%s;\n' % (self.try_n, var['name'], self.try_n, var['name'])
                 self.scopes.append([])
                 hb = self.S(blk, ind + 1)
                 self.scopes.pop()
